@@ -393,6 +393,26 @@ pub fn run_c05(cx: &Cx) -> PropResult {
 /// DESIGN section 6: the recorded defects are re-exhibited on every run so that a silent repair or a change of
 /// behaviour is noticed; they never fail the check
 fn known_findings_c05(r: &mut PropResult, cx: &Cx) {
+    // F20: every back-reference to a deduplicated string materialises a copy of it: a Vec<DeduplicatedString> of one
+    // string of L bytes and k one-byte back-references holds k*L bytes for an input of L+k bytes. Witness L = k = 20 000.
+    {
+        let (l, k) = (20_000usize, 20_000usize);
+        let mut bytes = Vec::new();
+        vmodel::refcodec::var_i32(k as i32 + 1, &mut bytes);
+        vmodel::refcodec::var_i32(l as i32, &mut bytes);
+        bytes.extend(std::iter::repeat(b'x').take(l));
+        for _ in 0..k {
+            vmodel::refcodec::var_i32(-1, &mut bytes);
+        }
+        let ty = Ty::Vec(Arc::new(Ty::Dedup));
+        vcat::prepare(&ty);
+        let (res, stats) = crate::alloc::measure(|| guarded(|| vcat::decode_only(&ty, &bytes).map(|_| ())));
+        let (peak_bound, _) = alloc_bounds(&ty, bytes.len());
+        if matches!(res, Ok(Ok(()))) && stats.peak > peak_bound {
+            r.lines.push(format!("KNOWN-FINDING: property=C05 F20 Vec<DeduplicatedString> decoded from {} bytes (one string of {l} bytes, {k} back-references) holds {} bytes of heap at peak (profile {}; linear bound {peak_bound}): each back-reference materialises a copy, so memory grows with the product of string length and reference count, not with the input length", bytes.len(), stats.peak, cx.profile));
+            *r.acc.known.entry("F20".into()).or_insert(0) += 1;
+        }
+    }
     // F12: Vec<()> with a large non-negative count iterates count times without consuming input. Witness: a count
     // large enough to be measurable but harmless (2^22 iterations).
     let mut bytes = Vec::new();
